@@ -52,7 +52,7 @@ def plan(tier, seed):
 
 
 def mandatory(tier):
-    return [f"mode/{m}" for m in MODES] + ["affine", "translation", "scaling", "spacing", "bspline", "lame", "inverse_consistency/cube", "inverse_consistency/voxel", "inverse_consistency/world", "modules", "linear_tensor"]
+    return [f"mode/{m}" for m in MODES] + ["affine", "translation", "scaling", "spacing", "bspline", "lame", "inverse_consistency/cube", "inverse_consistency/voxel", "inverse_consistency/world", "modules", "modules/elastic_constants", "default_spacing", "linear_tensor"]
 
 
 def interior(a, m):
@@ -238,6 +238,24 @@ def case(ctx, i):
             ]
             for name, mod, want in pairs:
                 ctx.close("module_equals_functional", mod(u_s), want, 1e-12 * (1 + float(want.abs())), key=f"modules/{name}", reduction=red)
+        # default spacing is the spacing of the normalised cube, 2/(n-1) per axis in (x, ...) order: non-square shapes
+        ctx.bucket("default_spacing")
+        dsp = tuple(2.0 / (n - 1) for n in reversed(shape))
+        for name in ("grad_loss", "diffusion_loss", "total_variation_loss", "divergence_loss", "elasticity_loss", "bending_loss", "curvature_loss"):
+            fn = getattr(LF, name)
+            ekw = dict(first_parameter=lam, second_parameter=mu) if name == "elasticity_loss" else (dict(p=p_, q=q_) if name == "grad_loss" else {})
+            want = fn(u_s, mode=mode, spacing=dsp, reduction="none", **ekw)
+            ctx.close("default_spacing_is_cube_spacing", fn(u_s, mode=mode, reduction="none", **ekw), want, 1e-9 * (1 + float(want.abs().max())), key=f"{name}/default_spacing", shape=list(shape))
+        # every documented pair of elastic constants reaches the functional form through the module
+        ctx.bucket("modules/elastic_constants")
+        nu, E, G_ = lam / (2 * (lam + mu)), mu * (3 * lam + 2 * mu) / (lam + mu), mu
+        for ekw in (dict(poissons_ratio=nu, youngs_modulus=E), dict(shear_modulus=G_, poissons_ratio=nu), dict(youngs_modulus=E, shear_modulus=G_), dict(first_parameter=lam, shear_modulus=G_), dict(material_name="rubber")):
+            with ctx.guard("Elasticity(constants)", key="exc/modules/Elasticity/constants", constants=sorted(ekw)):
+                want = LF.elasticity_loss(u_s, mode=mode, spacing=spacing, **ekw)
+                ctx.close("elasticity_module_equals_functional_for_constants", LM.Elasticity(mode=mode, spacing=spacing, **ekw)(u_s), want, 1e-12 * (1 + float(want.abs())), key="modules/Elasticity/constants", constants=sorted(ekw))
+                if "material_name" not in ekw:
+                    ref_ = LF.elasticity_loss(u_s, mode=mode, spacing=spacing, first_parameter=lam, second_parameter=mu)
+                    ctx.close("elastic_constant_pairs_are_equivalent", want, ref_, 1e-6 * (1 + float(ref_.abs())), key="elasticity/constants", constants=sorted(ekw))
         # stride reaches the functional form in bspline mode
         cshape = tuple(int(rng.integers(5, 8)) for _ in range(D))
         ct = torch.tensor(rng.normal(size=(N, D) + cshape))
